@@ -38,7 +38,7 @@ ASSUMPTIONS = [
     "limit 0: the guard handle cannot be captured (no call is ever served), only statuses and handler counts are compared",
 ]
 
-HTTP_OPEN, WS_OPEN = ("ho", "hg", "hu"), ("wo", "wb", "we")
+HTTP_OPEN, WS_OPEN = ("ho", "hg", "hu"), ("wo", "wb", "we", "w0")
 
 
 class Script:
@@ -66,7 +66,7 @@ class Script:
         http_on, ws_on = self.mode != "ws", self.mode != "http"
         if op == "wi":
             assert self.mode == "ping"
-        if op in ("ho", "hg", "wo", "wb", "we", "hu"):
+        if op in ("ho", "hg", "wo", "wb", "we", "w0", "hu"):
             i = self.n
             self.n += k if op == "hu" else 1
         if op == "ho":
@@ -92,7 +92,7 @@ class Script:
         elif op == "wb":
             self.dead.append(i)
             self.tok(op, i, "s%d" % f)
-        elif op == "we":
+        elif op in ("we", "w0"):
             self.dead.append(i)
             self.tok(op, i, "a%d" % f)
         elif op == "hb":
@@ -154,12 +154,12 @@ class Script:
         return "%d %s %s" % (self.mx, self.mode, " ".join(self.toks))
 
 
-ABSTRACT = ["ho", "hg", "wo", "wb", "we", "hb-new", "hr-old", "ha-old", "wl-old", "wa-new", "wc-new", "hu"]
+ABSTRACT = ["ho", "hg", "wo", "wb", "we", "w0", "hb-new", "hr-old", "ha-old", "wl-old", "wa-new", "wc-new", "hu"]
 ABSTRACT_PING = ["ho", "wo", "hb-new", "hr-old", "wc-new", "wi-old", "wi-new", "wg-old", "wl-old"]
 
 
 def apply_abstract(s, a, rng):
-    if a in ("ho", "hg", "wo", "wb", "we"):
+    if a in ("ho", "hg", "wo", "wb", "we", "w0"):
         s.op(a)
     elif a == "hu":
         s.op("hu", k=rng.choice([2, 3, 4]))
@@ -190,7 +190,7 @@ def random_script(rng, mx, mode, length):
         r = rng.random()
         live_h, live_w = list(s.http), list(s.ws)
         if r < 0.38 or not (live_h or live_w):
-            s.op(rng.choice(["ho", "ho", "ho", "wo", "wo", "wo", "hg", "wb", "we", "hu" if mode != "ws" else "ho"]), k=rng.choice([2, 3, 5]))
+            s.op(rng.choice(["ho", "ho", "ho", "wo", "wo", "wo", "hg", "wb", "we", "w0", "hu" if mode != "ws" else "ho"]), k=rng.choice([2, 3, 5]))
         elif r < 0.43 and s.dead:
             # a step addressed to a finished / refused attempt: must be a no-op on both sides
             s.op(rng.choice(["hb", "hr", "ha", "wc", "wr", "wl", "wa"]), rng.choice(s.dead))
@@ -207,7 +207,7 @@ def random_script(rng, mx, mode, length):
     return s
 
 
-EXIT_PATHS = ["hr", "ha-partial", "ha", "hf", "hx", "hg", "hu", "wb", "we", "wl", "wa", "wf", "wg", "wx", "wa-midcall",
+EXIT_PATHS = ["hr", "ha-partial", "ha", "hf", "hx", "hg", "hu", "wb", "we", "w0", "wl", "wa", "wf", "wg", "wx", "wa-midcall",
               "wg-midcall", "wl-midcall", "refused"]
 PING_PATHS = ["wi", "wi-midcall", "wi-released"]   # server's inactivity close: idle session / call parked / call finished
 
@@ -216,7 +216,7 @@ def cycle_script(rng, mx, path, cycles):
     """fill the limit, get one refusal, leave by `path`; repeated"""
     s = Script(mx, "ping" if path in PING_PATHS else "both")
     for _ in range(cycles):
-        if path in ("hg", "wb", "we", "hu"):
+        if path in ("hg", "wb", "we", "w0", "hu"):
             s.op(path, k=mx + 1)
             continue
         ids = []
